@@ -4,6 +4,8 @@ import (
 	"fmt"
 	"math/rand"
 	"net/http"
+	"net/url"
+	"path/filepath"
 	"strings"
 	"sync"
 	"sync/atomic"
@@ -46,7 +48,7 @@ func c06Universe(rnd *rand.Rand, zones uint64) []c06Key {
 }
 
 func c06(r *hx.Run) {
-	r.Rule = "every resource carries the same strong ETag, every seventh a body of exactly 1500 bytes; a quarter of the requests carry X-Forwarded-Host/Forwarded/X-Original-Url headers; universe of 160 near-identical keys (paths differing by a slash/digit/case/escape, queries differing in one byte or only by '?', five hosts incl. one with a port and one differing in case only, GET vs HEAD, 1.8 kB URIs differing in the last byte) plus 60 keys pre-selected with MemHash to share one shard; caches of size 8, 24 and 64 plus one of size 16 backed by a store (constant eviction, re-creation and reload from the store; lifetime 1 s on the real clock, so entries are also refetched after expiry during the run); 32 concurrent clients with hot/cold mix; every 2xx response must echo exactly the requester's method, Host and request-URI (body identification line and echo headers written by the origin). Plus a dispatcher-level run over one million generated keys checking entry identity. Non-trivial/distinct = distinct key that was answered at least once after having been evicted."
+	r.Rule = "request targets with raw non-UTF-8 bytes differing only inside such runs on the store-backed cache (fetched, hit, evicted, reloaded); every resource carries the same strong ETag, every seventh a body of exactly 1500 bytes; a quarter of the requests carry X-Forwarded-Host/Forwarded/X-Original-Url headers; universe of 160 near-identical keys (paths differing by a slash/digit/case/escape, queries differing in one byte or only by '?', five hosts incl. one with a port and one differing in case only, GET vs HEAD, 1.8 kB URIs differing in the last byte) plus 60 keys pre-selected with MemHash to share one shard; caches of size 8, 24 and 64 plus one of size 16 backed by a store (constant eviction, re-creation and reload from the store; lifetime 1 s on the real clock, so entries are also refetched after expiry during the run); 32 concurrent clients with hot/cold mix; every 2xx response must echo exactly the requester's method, Host and request-URI (body identification line and echo headers written by the origin). Plus a dispatcher-level run over one million generated keys checking entry identity. Non-trivial/distinct = distinct key that was answered at least once after having been evicted."
 	r.Assume = []string{"-race build (implies checkptr for the zero-copy key string)", "the origin echoes what it saw; a mismatch between echo and request can only come from pike serving another key's entry"}
 	rnd := rand.New(rand.NewSource(r.Seed))
 	sizes := []int{8, 24, 64, 16}
@@ -63,8 +65,8 @@ func c06(r *hx.Run) {
 			if i == storeIdx {
 				cc.Name = "c06_store"
 				name = cc.Name
-				cc.Store = fmt.Sprintf("mem://c06/%d", r.Seed)
-				hx.NewMemStore(cc.Store).NoLog = true
+				// pike's own badger store (in the scratch directory): the store code itself is in the loop
+				cc.Store = "badger://" + filepath.Join(r.Scratch, "c06-badger")
 			}
 			cfg.Caches = append(cfg.Caches, cc)
 			cfg.Servers = append(cfg.Servers, config.ServerConfig{Addr: srvAddr(ports[i]), Locations: []string{"l"}, Cache: name})
@@ -173,6 +175,44 @@ func c06(r *hx.Run) {
 		return true
 	})
 	r.Sample(map[string]interface{}{"keys_sample": keys[:8], "forced_same_shard_sample": keys[len(keys)-4:]})
+	// request targets with raw bytes that are no valid UTF-8 (legacy encodings such as GBK in a query),
+	// differing only inside such byte runs, on the cache backed by a store: fetched, hit, pushed out of the
+	// LRU and asked again. net/http's client would escape them, so they go out by hand.
+	{
+		addr := srvAddr(ports[storeIdx])
+		rawURIs := []string{"/c06raw/s?wd=\xb1\xb1\xbe\xa9", "/c06raw/s?wd=\xb9\xe3\xd6\xdd", "/c06raw/s?wd=\xc9\xee\xdb\xda", "/c06raw/s?wd=\xff\xfe", "/c06raw/\xe4\xb8/x", "/c06raw/\xe4\xb9/x"}
+		ask := func(u, phase string) bool {
+			raw := fmt.Sprintf("GET %s HTTP/1.1\r\nHost: raw.example\r\n\r\n", u)
+			rr := hx.RawRequest(addr, []byte(raw), "GET", false, 10*time.Second)
+			r.Add("requests_with_raw_non_utf8_targets", 1)
+			if rr.Err != nil || rr.Status != 200 {
+				r.Violate("request_failed", map[string]string{"target": "raw_non_utf8"}, fmt.Sprintf("status %d err %v", rr.Status, rr.Err), nil, map[string]interface{}{"uri": fmt.Sprintf("%q", u), "phase": phase})
+				return false
+			}
+			// the body names the request it answers (header values with such bytes do not survive the
+			// persisted record - the known finding of C09 - so the body is what is compared); the origin sees
+			// the target as the proxy re-encodes it: compare after unescaping
+			id, ok := hx.ParseIdent(rr.Body)
+			eu, _ := url.PathUnescape(strings.ReplaceAll(id.URI, "+", "%2B"))
+			if !ok || !id.Intact || eu != u {
+				r.Violate("response_of_another_key", map[string]string{"via": "body", "target": "raw_non_utf8"}, fmt.Sprintf("requested %q (%s) but the body identifies %q (intact=%v)", u, phase, id.URI, id.Intact), nil, map[string]interface{}{"uri": fmt.Sprintf("%q", u), "label": rr.Header.Get("X-Status")})
+				return false
+			}
+			return true
+		}
+		okAll := true
+		for round := 0; round < 3 && okAll; round++ {
+			for _, u := range rawURIs {
+				if !ask(u, "fetch_or_hit") || !ask(u, "hit") {
+					okAll = false
+					break
+				}
+			}
+			for k := 0; k < 40 && okAll; k++ {
+				w.Cl.Get(addr, "raw.example", fmt.Sprintf("/c06raw/fill/%d/%d", round, k))
+			}
+		}
+	}
 	// store-backed cache, step by step: fill, let everything expire, refetch under concurrency (records
 	// are written again), evict, read back through the store
 	{
